@@ -80,42 +80,6 @@ def tryState (n : Nat) (hint auth : Nat → Bool) (cached : List Nat) (mandatory
         | (some u, a4) => { user := some (u, .registryFallback), tried := a4.tried }
         | (none, a4) => { user := none, tried := a4.tried }
 
-/-! ## Reload: `SetUsers` ‖ `discoverUser` as a transition system
-
-Generations are numbered; `published` is `Registry.users` (an atomic pointer).  A discovery thread
-loads the pointer, runs `tryState` on that generation (abstracted: the outcome is whatever
-`tryState` gives for that generation), then — with `requireCurrent` — reloads the pointer and
-starts over if it changed.  A reload thread may publish a new generation at any step. -/
-
-inductive DPhase
-  | idle                       -- before `publisher.Load()`
-  | tried (gen : Nat)          -- `tryState(state)` done on generation `gen`, result pending
-  | returned (gen : Nat)       -- result handed to the caller, attributed to `gen`
-  deriving DecidableEq, Repr
-
-structure Sys where
-  published : Nat              -- index of the generation `Registry.users` points to
-  history : List Nat           -- every generation that has ever been published, oldest first
-  disc : DPhase
-  started : Nat                -- `published` at the instant discovery started (for the statement)
-  deriving DecidableEq, Repr
-
-inductive Step (requireCurrent : Bool) : Sys → Sys → Prop
-  /-- `SetUsers`: publish a fresh generation -/
-  | reload (s : Sys) (g : Nat) (hfresh : g ∉ s.history) :
-      Step requireCurrent s { s with published := g, history := s.history ++ [g] }
-  /-- `state := publisher.Load(); result := tryState(state, …)` -/
-  | load (s : Sys) (h : s.disc = .idle) :
-      Step requireCurrent s { s with disc := .tried s.published }
-  /-- `if requireCurrent && publisher.Load() != state { continue }` — generation changed: retry -/
-  | retry (s : Sys) (g : Nat) (h : s.disc = .tried g) (hr : requireCurrent = true) (hne : s.published ≠ g) :
-      Step requireCurrent s { s with disc := .idle }
-  /-- otherwise the result is returned, attributed to the generation it was computed on -/
-  | ret (s : Sys) (g : Nat) (h : s.disc = .tried g) (hok : requireCurrent = false ∨ s.published = g) :
-      Step requireCurrent s { s with disc := .returned g }
-
-inductive Reach (requireCurrent : Bool) : Sys → Sys → Prop
-  | refl (s : Sys) : Reach requireCurrent s s
-  | step {a b c : Sys} : Reach requireCurrent a b → Step requireCurrent b c → Reach requireCurrent a c
+/-! The interleaving of `SetUsers` with `discoverUser` is `Mieru.Reload` (Model/Reload.lean). -/
 
 end Mieru.Discovery
